@@ -106,7 +106,8 @@ class C06(object):
     assumptions = ['an exclusion added after an income registration of the same name is ambiguous in the statement: '
                    'generated and replayed, INC not judged from then on',
                    "definitions spelled '0.' or '0' (grey zone of identically zero) are not generated"]
-    required_counters = ('flow.judged', 'inc.judged', 'def.judged', 'insitu.addcashflow.post_evaluated')
+    required_counters = ('flow.judged', 'inc.judged', 'def.judged', 'insitu.addcashflow.post_evaluated',
+                         'registered.ledgers_judged', 'registered.histories_with_repeated_flow')
 
     def n_cases(self, tier):
         return (300 if tier == 'quick' else 30000) + 1
@@ -115,12 +116,97 @@ class C06(object):
         if idx == 0:
             return {'kind': 'ambient', 'models': ['SIM', 'PC', 'REG'] if tier == 'quick' else ['SIM', 'SIMEX1', 'PC', 'REG', 'REG2'],
                     'scripts': 'fast' if tier == 'quick' else 'all'}
+        if idx % 6 == 3:
+            # flows registered at the model level (Model.RegisterCashFlow) between three sectors: repeats of the same
+            # (source, target, variable), both directions, every combination of the income flags
+            secs = ['A', 'B', 'C']
+            regs = []
+            for _ in range(rng.randint(2, 14)):
+                src = rng.choice(secs)
+                dst = rng.choice([x for x in secs if x != src])
+                regs.append({'src': src, 'dst': dst, 'var': rng.choice(['X', 'Y']),
+                             'inc_src': rng.random() < 0.6, 'inc_dst': rng.random() < 0.6})
+            if rng.random() < 0.8:
+                regs.append(dict(rng.choice(regs)))            # an exact repeat
+                if rng.random() < 0.5:
+                    r2 = dict(rng.choice(regs))
+                    r2['inc_src'], r2['inc_dst'] = not r2['inc_src'], not r2['inc_dst']
+                    regs.append(r2)                            # the same flow again with the other income flags
+            rng.shuffle(regs)
+            return {'kind': 'registered', 'regs': regs, 'vseed': rng.getrandbits(32), 'twice': False}
         return {'kind': 'history', 'ops': gen_history(rng), 'vseed': rng.getrandbits(32),
                 'host': rng.choice(['Sector', 'Sector', 'Household'])}
+
+    def run_registered(self, case):
+        from sfc_models.models import Model, Country
+        from sfc_models.sector import Sector
+        rec = monitors.Recorder()
+        rng = random.Random(case['vseed'])
+        mod = Model()
+        ca = Country(mod, 'CA', 'Canada')
+        S = {c: Sector(ca, c, 'sector ' + c) for c in ('A', 'B', 'C')}
+        for c, sec in S.items():
+            sec.AddVariable('X', 'amount X', '1.0')
+            sec.AddVariable('Y', 'amount Y', '2.0')
+        for r in case['regs']:
+            mod.RegisterCashFlow(S[r['src']], S[r['dst']], r['var'], is_income_source=r['inc_src'], is_income_dest=r['inc_dst'])
+        try:
+            with contextlib.redirect_stdout(io.StringIO()):
+                mod._GenerateFullSectorCodes()
+                mod._GenerateEquations()
+                mod._FixAliases()
+                mod._GenerateRegisteredCashFlows()
+        except Exception as e:
+            rec.violate('call_raised', {'err': repr(e), 'regs': case['regs']})
+            return {'verdict': 'violated', 'shape': 'registered', 'counters': rec.counters, 'violations': rec.violations}
+        repeats = len(case['regs']) - len(set((r['src'], r['dst'], r['var']) for r in case['regs']))
+        for trial in range(3):
+            env = {'LAG_F': float(rng.randint(1, 64))}
+            for c in S:
+                for v in ('X', 'Y'):
+                    env['%s__%s' % (c, v)] = float(rng.randint(1, 64))
+            for c, sec in S.items():
+                expF, expI = env['LAG_F'], 0.0
+                for r in case['regs']:
+                    amt = env['%s__%s' % (r['src'], r['var'])]
+                    if r['src'] == c:
+                        expF -= amt
+                        if r['inc_src']:
+                            expI -= amt
+                    if r['dst'] == c:
+                        expF += amt
+                        if r['inc_dst']:
+                            expI += amt
+                F, INC = sec.EquationBlock['F'].RHS(), sec.EquationBlock['INC'].RHS()
+                local = dict(env)
+                local['X'], local['Y'] = env[c + '__X'], env[c + '__Y']
+                try:
+                    gotF, gotI = _eval(F, local), _eval(INC if INC.strip() else '0.0', local)
+                except Exception as e:
+                    rec.violate('ledger_unevaluable', {'sector': c, 'F': F, 'INC': INC, 'err': repr(e)})
+                    break
+                if gotF != expF:
+                    rec.violate('F_not_lagged_assets_plus_flows', {'sector': c, 'F': F, 'expected': expF, 'got': gotF,
+                                                                  'registered': case['regs']})
+                    break
+                if gotI != expI:
+                    rec.violate('INC_not_sum_of_income_flows', {'sector': c, 'INC': INC, 'expected': expI, 'got': gotI,
+                                                                'registered': case['regs']})
+                    break
+                rec.count('registered.ledgers_judged')
+            if rec.violations:
+                break
+        if repeats:
+            rec.count('registered.histories_with_repeated_flow')
+        return {'verdict': 'violated' if rec.violations else 'held', 'nontrivial': len(case['regs']) >= 3,
+                'shape': 'registered', 'counters': rec.counters, 'violations': rec.violations,
+                'obs': {'n_registered': len(case['regs']), 'repeats': repeats, 'F_A': S['A'].EquationBlock['F'].RHS()[:200]}}
 
     def run_case(self, case):
         if case['kind'] == 'ambient':
             return self.run_ambient(case)
+        if case['kind'] == 'registered':
+            return self.run_registered(case)
         from sfc_models.models import Model, Country
         from sfc_models.sector import Sector
         from sfc_models.sector_definitions import Household
